@@ -75,20 +75,20 @@ ResultIsDerivationTree ==
      /\ TreeIds(nodes, vals[1]) = 0..(Len(nodes) - 1)        \* every functor call made is a node of the result, once
 
 \* C09
-FirstBad(gg, tk) ==          \* index of the first token (eof = Len+1) whose prefix is not viable; 0 if none
-  LET ext == Append(tk, Eof(Gs[gg]))
-      bad == {k \in 1..Len(ext) : IF k <= Len(tk) THEN SubSeq(tk, 1, k) \notin PrefOf[gg] ELSE tk \notin LangOf[gg]}
+\* index of the first token whose prefix is not viable (eof counts as token Len+1 when `eofToo'); 0 if none
+FirstBad(gg, tk, eofToo) ==
+  LET bad == {k \in 1..(Len(tk) + 1) : IF k <= Len(tk) THEN SubSeq(tk, 1, k) \notin PrefOf[gg] ELSE eofToo /\ tk \notin LangOf[gg]}
   IN IF bad = {} THEN 0 ELSE CHOOSE k \in bad : \A k2 \in bad : k <= k2
 Reduced == [gg \in 1..NG |-> ReducedReachable(Gs[gg])]
 ReportedOnceAtTheRightPlace ==
   (Done /\ ConflictFree(g) /\ NoErrRules(g) /\ Reduced[g]) =>
-     LET tk == Toks(g, inp, 0, <<>>) IN
-     IF status = "acc" THEN msgs = <<>>
-     ELSE /\ Len(msgs) = 1
-          /\ IF ~tk[1] THEN msgs[1][1] = "unexp" /\ FirstBad(g, tk[2]) = 0     \* every token before the bad byte was viable
-             ELSE LET k == FirstBad(g, tk[2]) IN
-                  /\ k > 0 /\ msgs[1][1] = "synerr"
-                  /\ msgs[1][4] = Append(tk[2], Eof(Gs[g]))[k]
+     LET tk == Toks(g, inp, 0, <<>>)              \* tk[2] = the tokens before the first byte no term matches (if any)
+         k  == FirstBad(g, tk[2], tk[1])
+     IN IF k > 0                                   \* a syntax error comes first: reported before later input is examined
+        THEN /\ status = "rej" /\ Len(msgs) = 1 /\ msgs[1][1] = "synerr"
+             /\ msgs[1][4] = Append(tk[2], Eof(Gs[g]))[k]
+        ELSE IF ~tk[1] THEN status = "rej" /\ Len(msgs) = 1 /\ msgs[1][1] = "unexp"
+        ELSE status = "acc" /\ msgs = <<>>
 
 Safe == D!StacksInSync /\ D!PositionsInRange
 
